@@ -110,6 +110,7 @@ def main():
     known, fixed = load_known()
     violations, undecided, errors, known_lines = [], [], [], []
     obls = []
+    n_covers = 0
     functions = []
     assumptions = set(meta.get("assumptions", []))
     for r in results:
@@ -122,8 +123,9 @@ def main():
         if r["undecided_reason"]:
             undecided.append({"function": r["function"], "reason": r["undecided_reason"]})
         for cv in r["covers"]:
+            n_covers += 1
             if cv["status"] == "unsat":
-                errors.append(f'vacuous contract: {cv["id"]} has unsatisfiable hypotheses')
+                errors.append(f'vacuity guard: {cv["id"]} has unsatisfiable hypotheses (contradictory contract or engine fault)')
         for o in r["obligations"]:
             o["function"] = r["function"]
             obls.append(o)
@@ -199,7 +201,7 @@ def main():
         "obligations": total, "discharged": discharged, "checker_cmd": CHECKER_CMD,
         "trusted_base": sorted(set(meta.get("trusted_base", [])) | {f"trusted contract (not verified): {q}: {why}" for q, why in trusted}),
         "functions_under_contract": functions,
-        "discharged_by_backend": by_solver, "solver_time_s": solver_time,
+        "vacuity_covers_checked": n_covers, "discharged_by_backend": by_solver, "solver_time_s": solver_time,
         "undecided": undecided[:50], "obligation_list": [{"id": o["id"], "status": o["status"], "solver": o["solver"],
                                                           "seconds": o["seconds"]} for o in by_id.values()],
         "dropped_by_extraction": ["type annotations and typing.cast", "docstrings", "logger.* calls",
